@@ -126,7 +126,7 @@ def run(ctx):
     for name in SUBLANGS:
         cases = sr.generate(ctx, name)
         pcases = sr.generate(ctx, name, "parens")
-        cap = 2500 if ctx.quick else 100000
+        cap = 2500 if ctx.quick else 25000
         if len(cases) > cap:
             cases = cases[::(len(cases) + cap - 1) // cap]
             ctx.extra["exhaustive"] = False
